@@ -10,7 +10,7 @@ import tempfile
 HERE = os.path.dirname(os.path.abspath(__file__))
 VERIF = os.path.dirname(HERE)
 REPO = os.environ.get("VERIF_REPO", "/repo")
-SCENARIO_PROPS = {"C01", "C02", "C03", "C04", "C05", "C06", "C07", "C08", "C09", "C10", "C11", "C12", "C13", "C15", "C16", "C17", "C18"}
+SCENARIO_PROPS = {"C01", "C02", "C03", "C04", "C05", "C06", "C07", "C08", "C09", "C10", "C11", "C12", "C13", "C15", "C16", "C17", "C18", "C20"}
 _cache = {}
 
 
@@ -21,6 +21,9 @@ def run_scenarios(pid, seed, budget=25.0):
         return _cache[key]
     if pid not in SCENARIO_PROPS:
         _cache[key] = ([], "no scenario family for this property")
+        return _cache[key]
+    if pid == "C20":
+        _cache[key] = run_py_scenarios(seed)
         return _cache[key]
     d = tempfile.mkdtemp(prefix="vr-")
     try:
@@ -53,6 +56,40 @@ def run_scenarios(pid, seed, budget=25.0):
                     pass
         _cache[key] = (hits, note)
         return _cache[key]
+    finally:
+        shutil.rmtree(d, ignore_errors=True)
+
+
+def run_py_scenarios(seed):
+    """C20: build the REAL oxmpl-py extension module from the tree under check and run replay/py/c20_scenarios.py under the
+    real CPython (the interpreter pyo3 builds against is the `python3` on PATH)."""
+    d = tempfile.mkdtemp(prefix="vrpy-")
+    try:
+        env = dict(os.environ)
+        env["CARGO_NET_OFFLINE"] = "true"
+        env["CARGO_TARGET_DIR"] = os.path.join(d, "target")
+        b = subprocess.run(["cargo", "build", "-p", "oxmpl-py", "--offline", "-q"], cwd=REPO, env=env, capture_output=True, text=True, timeout=1500)
+        so = os.path.join(d, "target", "debug", "liboxmpl_py.so")
+        if b.returncode != 0 or not os.path.exists(so):
+            return [], "oxmpl-py does not build against this tree: " + b.stderr[-400:]
+        os.makedirs(os.path.join(d, "mod"))
+        shutil.copy(so, os.path.join(d, "mod", "oxmpl_py.so"))
+        env["PYTHONPATH"] = os.path.join(d, "mod")
+        try:
+            r = subprocess.run(["python3", os.path.join(VERIF, "replay", "py", "c20_scenarios.py"), str(seed)], capture_output=True, text=True, timeout=600, env=env, cwd=os.path.join(d, "mod"))
+            out, note = r.stdout, "python scenario family ran against the real oxmpl_py module (exit %d)" % r.returncode
+            if r.returncode not in (0, 1):
+                return [], "python scenario family did not run: " + r.stderr[-300:]
+        except subprocess.TimeoutExpired:
+            return [dict(scenario="watchdog", seed=seed, what="the python scenario run hung")], "python scenario run did not return within its watchdog"
+        hits = []
+        for ln in out.splitlines():
+            if ln.startswith('{"scenario"'):
+                try:
+                    hits.append(json.loads(ln))
+                except Exception:
+                    pass
+        return hits, note
     finally:
         shutil.rmtree(d, ignore_errors=True)
 
